@@ -25,7 +25,7 @@ from collections import defaultdict
 from collections.abc import Mapping
 from dataclasses import dataclass
 from functools import partial, reduce
-from itertools import product, starmap
+from itertools import filterfalse, product, starmap
 from types import MappingProxyType as MapProxy
 from typing import Any, Generic, Iterable, Iterator, Literal, Self, Sequence, TypeVar, TYPE_CHECKING
 
@@ -624,17 +624,27 @@ class BaseModel(Generic[MvalT_co], metaclass=ModelsMeta):
                         for v in self._get_predicate_data_values(predicate)])
 
         def _get_predicate_data_values(self, predicate: Predicate):
-            interp = self.predicates[predicate]
-            data = self._get_predicate_data_part(predicate, interp.having(*'TB'))
+            data = self._get_predicate_data_part(predicate, self._tuples_having(predicate, 'TB'))
             many_valued = self.model.Meta.many_valued
             if many_valued:
                 data['symbol'] += '+'
             yield data
             if not many_valued:
                 return
-            data = self._get_predicate_data_part(predicate, interp.having(*'BF'))
+            data = self._get_predicate_data_part(predicate, self._tuples_having(predicate, 'BF'))
             data['symbol'] += '-'
             yield data
+
+        def _tuples_having(self, predicate: Predicate, names: str) -> set[tuple[Constant, ...]]:
+            'The tuples of the model constants whose predication has one of the values.'
+            interp = self.predicates[predicate]
+            tuples = set(interp.having(*names))
+            if self.model.Meta.unassigned_value.name in names:
+                # A tuple without a stored value has the unassigned value.
+                tuples.update(filterfalse(
+                    interp.__contains__,
+                    product(self.model.constants, repeat=predicate.arity)))
+            return tuples
 
         def _get_predicate_data_part(self, predicate: Predicate, tuples: Iterable[tuple[Constant, ...]]):
             return dict(
